@@ -56,7 +56,7 @@ macro_rules! delegate_to_core {
           .await.map_err(|_send_error| $crate::error::ZmqError::Internal("Mailbox send error".into()))?;
       // Await the reply from SocketCore.
       // The `??` propagates both the channel error and the inner Result error.
-      reply_rx.recv().await.map_err(|_recv_error| $crate::error::ZmqError::Internal("Reply channel error".into()))?
+      $crate::socket::await_core_reply(reply_rx, $self.mailbox()).await?
     }
   };
   // Case for commands that have NO fields (other than the reply_tx).
@@ -68,9 +68,34 @@ macro_rules! delegate_to_core {
           $self.mailbox()
               .send(cmd)
               .await.map_err(|_send_error| $crate::error::ZmqError::Internal("Mailbox send error".into()))?;
-          reply_rx.recv().await.map_err(|_recv_error| $crate::error::ZmqError::Internal("Reply channel error".into()))?
+          $crate::socket::await_core_reply(reply_rx, $self.mailbox()).await?
       }
   };
+}
+
+/// Awaits the reply to a command sent to a `SocketCore`. A command enqueued in the instant the
+/// core's command loop stops is never processed and (queued items outlive a dropped receiver
+/// while sender handles exist) never dropped either, so its reply would never come: besides the
+/// reply itself, watch for the mailbox having been closed by the core.
+pub async fn await_core_reply<T>(
+  reply_rx: fibre::oneshot::Receiver<T>,
+  mailbox: MailboxSender,
+) -> Result<T, ZmqError> {
+  let recv_fut = reply_rx.recv();
+  tokio::pin!(recv_fut);
+  loop {
+    tokio::select! {
+      biased;
+      r = &mut recv_fut => {
+        return r.map_err(|_recv_error| ZmqError::Internal("Reply channel error".into()));
+      }
+      _ = tokio::time::sleep(std::time::Duration::from_millis(100)) => {
+        if mailbox.is_closed() {
+          return Err(ZmqError::InvalidState("Socket is closed"));
+        }
+      }
+    }
+  }
 }
 
 /// Defines the internal behavior and pattern-specific logic for a ZeroMQ socket type.
